@@ -162,6 +162,52 @@ def eval_fcases(ck, name, cases):
     return {"P": ints(mp.group(1)), "M": ints(mv.group(1)), "V": ints(mv.group(2))}, out
 
 
+# ------------------------------------------------------------------------------ Prometheus query endpoints (model/ReadProm.v)
+PHEADER = ("From Coq Require Import List ZArith Bool.\nFrom Qryn Require Import model.Pipeline model.ReadPath model.ReadProm.\n"
+           "Import ListNotations.\nOpen Scope Z_scope.\n")
+
+
+def is_prom(c):
+    return bool(c.get("model")) and c["model"].get("ep") == "prom"
+
+
+def pexpr_to_coq(e):
+    t = e["t"]
+    if t == "sel":
+        return "PSel"
+    if t == "mat":
+        return "(PMat %s)" % coq_Z(e["r"])
+    if t == "call":
+        return "(PCall %s)" % pexpr_to_coq(e["a"])
+    if t == "bin":
+        return "(PBin %s %s)" % (pexpr_to_coq(e["a"]), pexpr_to_coq(e["b"]))
+    return "(PSub %s %s %s)" % (pexpr_to_coq(e["a"]), coq_Z(e.get("r", 0)), coq_Z(e.get("s", 0)))
+
+
+def pcase_to_coq(c):
+    m = c["model"]
+    q = {"missing": "PQMissing", "noparse": "PQNoParse"}.get(m["qkind"]) or "(PQ %s)" % pexpr_to_coq(m["expr"])
+    return "mkPC %d (mkPR %s %s %s %s %s %s) %d" % (c["id"], "true" if m["instant"] else "false", coq_Z(m["now"]), coq_param(m["start"]),
+                                                   coq_param(m["end"]), coq_param(m["step"]), q, obs_code(c["obs"]))
+
+
+def eval_pcases(ck, name, cases):
+    """model/ReadProm.v: what the controller decides (0/1/2 = answers itself, 7 = hands the query to the engine)"""
+    txt = (PHEADER + "Definition cases : list pcase := [\n  " + ";\n  ".join(pcase_to_coq(c) for c in cases) + "].\n"
+           "Definition P := Eval vm_compute in map ppredicted cases.\nPrint P.\n"
+           "Definition MV := Eval vm_compute in (pmismatches cases, pspec_violations cases).\nPrint MV.\n")
+    rc, out = ck.coq_eval(name, txt)
+    if rc != 0:
+        return None, out
+    flat = " ".join(out.split())
+    mp = re.search(r"\bP = (\[.*?\]|nil)\s*: list Z", flat)
+    mv = re.search(r"\bMV = \((\[.*?\]|nil), (\[.*?\]|nil)\)", flat)
+    if not mp or not mv:
+        return None, out
+    ints = lambda t: [int(x) for x in re.findall(r"-?\d+", t)]
+    return {"P": ints(mp.group(1)), "M": ints(mv.group(1)), "V": ints(mv.group(2))}, out
+
+
 # ------------------------------------------------------------------------------ harness
 def run_harness(ck, args, tag):
     outp = os.path.join(ck.work, tag + ".jsonl")
@@ -190,7 +236,7 @@ def size_of(c):
 
 
 FINDING_SUBQUERY = "promql-subquery-steps-unbounded"
-FINDING_SUBQUERY_QUERIES = ("up[30d:1ms]",)
+FINDING_SUBQUERY_QUERIES = ()   # fixed by 234ea6b: the witness is a corpus case of the modelled Prometheus stream now
 
 
 def is_finding_range(c):
@@ -328,7 +374,8 @@ def run(ck):
     cases = [c for c in cases if c["obs"]["outcome"] != "skipped"]
     ck.extra["skipped_for_time"] = len(skipped)
     fwd = [c for c in cases if is_fwd(c)]
-    modelled = [c for c in cases if c.get("model") and not is_fwd(c)]
+    prom = [c for c in cases if is_prom(c)]
+    modelled = [c for c in cases if c.get("model") and not is_fwd(c) and not is_prom(c)]
     testonly = [c for c in cases if not c.get("model")]
     known = ck.known_findings()
 
@@ -402,6 +449,36 @@ def run(ck):
                       "model_predicted": "%s, %d statements" % (CODE_NAME.get(fpred[w["id"]] // 1000), fpred[w["id"]] % 1000), "case": strip(w),
                       "others": len(FM) - 1, "broken": "correspondence ReadFwd.fwd_outcome vs reader router"}, no_input=True)
 
+    # ---- 4c. Prometheus query endpoints, inside Coq: the controller's decision; the engine's answer must be 2xx or 5xx
+    pbyid = {c["id"]: c for c in prom}
+    pjobs = [(k // 150, prom[k:k + 150]) for k in range(0, len(prom), 150)]
+    with ThreadPoolExecutor(max_workers=6) as ex:
+        pres = list(ex.map(lambda j: eval_pcases(ck, "C12_pcases_%d" % j[0], j[1]), pjobs))
+    PM, PV, PP = [], [], []
+    for r, out in pres:
+        if r is None:
+            ck.obligation("Prometheus query cases evaluated inside Coq", False, out[-1500:])
+            return
+        PM += r["M"]; PV += r["V"]; PP += r["P"]
+    ppred = dict(zip([c["id"] for c in prom], PP))
+    PNAME = dict(CODE_NAME)
+    PNAME[7] = "engine (2xx or 5xx)"
+    pshow = lambda i: (i, pbyid[i]["class"], [p["v"] for p in pbyid[i]["params"] if p["k"] == "query"][:1], "model " + PNAME.get(ppred[i], "?"),
+                       "observed %s %s" % (CODE_NAME.get(obs_code(pbyid[i]["obs"])), pbyid[i]["obs"].get("body_head", "")[:80]))
+    ck.obligation("correspondence: prom_outcome = what the Prometheus query / query_range controllers answer (400 / 500 themselves, else the engine: 2xx or 5xx) on %d requests" % len(prom),
+                  not PM, "mismatching %s" % [pshow(i) for i in PM[:5]])
+    ck.obligation("spec oracle: every Prometheus query request ends in an HTTP response with nothing left behind",
+                  not PV, "violating %s" % [pshow(i) for i in PV[:5]])
+    if PV:
+        w = min((pbyid[i] for i in PV), key=size_of)
+        ck.violation({"property": "C12", "kind": "request does not end in an orderly HTTP response: " + CODE_NAME[obs_code(w["obs"])],
+                      "model_predicted": PNAME.get(ppred[w["id"]]), "case": strip(w), "others": len(PV) - 1, "replay": "bin/check C12 --replay <this file>"})
+    elif PM:
+        w = min((pbyid[i] for i in PM), key=size_of)
+        ck.violation({"property": "C12", "kind": "model and implementation disagree on what the Prometheus controller decides; both orderly",
+                      "model_predicted": PNAME.get(ppred[w["id"]]), "case": strip(w), "others": len(PM) - 1,
+                      "broken": "correspondence ReadProm.prom_outcome vs reader router"}, no_input=True)
+
     # ---- 5. test-only stream
     bad = []
     for c in testonly:
@@ -444,7 +521,9 @@ def run(ck):
                             "valid, mutated and random query bytes and random result sets. non-trivial = a SQL statement was issued (or the request did not end in a response); distinct by request+script content. ")
     ck.extra["input_distribution"] = hist
     ck.extra["observed_outcomes"] = outc
-    ck.extra["modelled_requests"] = len(modelled) + len(fwd)
+    ck.extra["modelled_requests"] = len(modelled) + len(fwd) + len(prom)
+    ck.extra["modelled_prometheus_requests"] = len(prom)
+    ck.extra["prometheus_model_decisions"] = {PNAME.get(k, str(k)): PP.count(k) for k in sorted(set(PP))}
     ck.extra["modelled_forwarding_requests"] = len(fwd)
     ck.extra["statements_issued_histogram"] = {str(k): sum(1 for c in fwd if c["obs"].get("stmts") == k) for k in sorted({c["obs"].get("stmts", -1) for c in fwd})}
     ck.extra["test_only_requests"] = len(testonly)
